@@ -39,14 +39,32 @@ func startSmallModelSession(c *Ctx, u *Unit, assumes []*Term, goal *Term, timeou
 		slices = append(slices, t)
 	}
 	sort.Slice(slices, func(i, j int) bool { return slices[i].ID < slices[j].ID })
-	for _, bound := range []uint64{8, 200, 5000} {
-		extra := append([]*Term{}, assumes...)
-		for _, s := range slices {
-			extra = append(extra, BVCmp("bvsle", DataField_(s, 3), BVLit(bound, 64)), BVCmp("bvsle", DataField_(s, 1), BVLit(bound, 64)))
+	// preferences, strongest first: every read of the input stream succeeds / no validity check fails
+	var readsOK, noCheckErr []*Term
+	for _, ev := range c.reads {
+		if !hasBound(ev.reach) && !hasBound(ev.err) {
+			readsOK = append(readsOK, Implies(ev.reach, Eq(DataField_(ev.err, 0), BVLit(0, 32))))
 		}
-		ms, st := startModelSession(extra, goal, 20)
-		if ms != nil {
-			return ms, st
+	}
+	noCheckErr = append(noCheckErr, c.prefer...)
+	both := append(append([]*Term{}, readsOK...), noCheckErr...)
+	for _, pref := range [][]*Term{both, noCheckErr, readsOK, nil} {
+		for _, bound := range []uint64{8, 200, 5000} {
+			extra := append([]*Term{}, assumes...)
+			extra = append(extra, pref...)
+			for _, s := range slices {
+				extra = append(extra, BVCmp("bvsle", DataField_(s, 3), BVLit(bound, 64)), BVCmp("bvsle", DataField_(s, 1), BVLit(bound, 64)))
+			}
+			ms, st := startModelSession(extra, goal, 20)
+			if os.Getenv("VCDEBUG") != "" {
+				fmt.Fprintf(os.Stderr, "model session pref=%d bound=%d: %s\n", len(pref), bound, st)
+			}
+			if ms != nil {
+				return ms, st
+			}
+			if st == "unsat" {
+				break // the preference itself is infeasible; weaker preference next
+			}
 		}
 	}
 	return startModelSession(assumes, goal, timeoutS)
@@ -409,6 +427,21 @@ func (m *Materializer) expr(t *Term, typ types.Type, depth int) string {
 			m.imports["errors"] = true
 			return `errors.New("replay")`
 		}
+		if it, ok := typ.Underlying().(*types.Interface); ok {
+			for i := 0; i < it.NumMethods(); i++ {
+				if nm := it.Method(i).Name(); nm == "Read" || nm == "ReadByte" {
+					bs, _ := m.streamBytes()
+					if m.err != nil {
+						return "nil"
+					}
+					var l []string
+					for _, b := range bs {
+						l = append(l, fmt.Sprintf("%d", b))
+					}
+					return fmt.Sprintf("vcStream([]byte{%s})", strings.Join(l, ","))
+				}
+			}
+		}
 		for k, n := range m.c.eng.typeTags {
 			if uint64(n) == tag {
 				// find the types.Type by string among known types: only pointer-to-named in this package is supported
@@ -478,6 +511,14 @@ func vcMod[T any](p *T) {}
 func vcModElems[T any](s []T) {}
 func vcModObj[T any](p *T) {}
 func vcLen[T any](s []T) int { return len(s) }
+func vcOldGet[T any](k int, witness T) T { return witness }
+func vcOldBind[T any](k int, x T) {}
+var vcReplayReadFailed bool
+type vcTrackedReader struct{ r *vcBytes.Reader }
+func (t *vcTrackedReader) Read(p []byte) (int, error) { n, err := t.r.Read(p); if err != nil { vcReplayReadFailed = true }; return n, err }
+func (t *vcTrackedReader) ReadByte() (byte, error) { b, err := t.r.ReadByte(); if err != nil { vcReplayReadFailed = true }; return b, err }
+func vcStream(b []byte) *vcTrackedReader { return &vcTrackedReader{vcBytes.NewReader(b)} }
+func vcErrorRaised() bool { return vcReplayReadFailed }
 func vcSame[T any](a, b T) bool { return vcFmt.Sprintf("%#v", a) == vcFmt.Sprintf("%#v", b) }
 `
 
@@ -544,9 +585,9 @@ func (e *Engine) replayOblig(u *Unit, ob *Oblig) ReplayOutcome {
 	gen = strings.Replace(gen, specPrelude, replayPrelude, 1)
 	// imports for the prelude
 	pkgLine := "package " + ct.Pkg + "\n"
-	imports := "import (\n\tvcFmt \"fmt\"\n\tvcMath \"math\"\n\tvcUnsafe \"unsafe\"\n)\nvar _ = vcMath.Pi\nvar _ vcUnsafe.Pointer\n"
+	imports := "import (\n\tvcBytes \"bytes\"\n\tvcFmt \"fmt\"\n\tvcMath \"math\"\n\tvcUnsafe \"unsafe\"\n)\nvar _ = vcMath.Pi\nvar _ vcUnsafe.Pointer\n"
 	if strings.Contains(gen, "\nimport (") {
-		gen = strings.Replace(gen, "\nimport (", "\nimport (\n\tvcFmt \"fmt\"\n\tvcMath \"math\"\n\tvcUnsafe \"unsafe\"", 1)
+		gen = strings.Replace(gen, "\nimport (", "\nimport (\n\tvcBytes \"bytes\"\n\tvcFmt \"fmt\"\n\tvcMath \"math\"\n\tvcUnsafe \"unsafe\"", 1)
 		gen += "\nvar _ = vcMath.Pi\nvar _ vcUnsafe.Pointer\n"
 	} else {
 		gen = strings.Replace(gen, pkgLine, pkgLine+imports, 1)
@@ -626,4 +667,81 @@ func (e *Engine) replayOblig(u *Unit, ob *Oblig) ReplayOutcome {
 		ro.Reason = "replay test did not run: " + firstLines(ro.Output, 6)
 	}
 	return ro
+}
+
+// streamBytes reconstructs an input byte string from the adversarial read events of the model:
+// the reads executed in the model, in program order, each contributing the bytes that decode to the
+// value it returned; the stream ends at the first read the model made fail.
+func (m *Materializer) streamBytes() ([]byte, bool) {
+	var out []byte
+	complete := true
+	for _, ev := range m.c.reads {
+		if hasBound(ev.reach) {
+			continue
+		}
+		rs, err := m.ms.eval(ev.reach)
+		if err != nil || strings.TrimSpace(rs) != "true" {
+			continue
+		}
+		if ev.preErr != nil {
+			ptag, ok := m.evalBV(DataField_(ev.preErr, 0))
+			if !ok {
+				return out, false
+			}
+			if ptag != 0 {
+				continue // sticky error: this read consumed nothing
+			}
+		}
+		tag, ok := m.evalBV(DataField_(ev.err, 0))
+		if !ok {
+			return out, false
+		}
+		if tag != 0 {
+			return out, complete
+		}
+		switch ev.kind {
+		case "byte":
+			v, _ := m.evalBV(ev.val)
+			out = append(out, byte(v))
+		case "uvarint":
+			v, _ := m.evalBV(ev.val)
+			for v >= 0x80 {
+				out = append(out, byte(v)|0x80)
+				v >>= 7
+			}
+			out = append(out, byte(v))
+		case "bin":
+			var bits uint64
+			w := 8
+			switch ev.val.S.K {
+			case KBool:
+				s, _ := m.ms.eval(ev.val)
+				if strings.TrimSpace(s) == "true" {
+					bits = 1
+				}
+				w = 1
+			case KFP:
+				s, _ := m.ms.eval(ev.val)
+				bits, _ = parseFP(s)
+			case KBV:
+				bits, _ = m.evalBV(ev.val)
+				w = ev.val.S.W / 8
+			default:
+				return out, false
+			}
+			for i := 0; i < w; i++ {
+				out = append(out, byte(bits>>(8*uint(i))))
+			}
+		case "bytes":
+			n, _ := m.evalBV(ev.n)
+			if n > 4096 {
+				return out, false
+			}
+			for i := uint64(0); i < n; i++ {
+				b, _ := m.evalBV(Select(ev.val, BV("bvadd", ev.off, BVLit(i, 64))))
+				out = append(out, byte(b))
+			}
+		}
+	}
+	return out, complete
 }
